@@ -633,4 +633,143 @@ Section ScheduleValid.
       + unfold it_fine_ops. apply repeat_comm_sweep_Vk; [lia | exact H1].
       + unfold it_coarse_ops. replace (1 - 1) with 0 by lia. apply coarse_loop_Vk; [lia | exact H1].
   Qed.
+
+  Lemma Vk_mono k k' FS : k' <= k -> Vk k FS -> Vk k' FS.
+  Proof. intros Hk HV p l Hp Hl. apply HV; [exact Hp | lia]. Qed.
+
+  (* any number of iterations *)
+  Lemma iterations_valid L nsw jacobi n : forall FS, Vk 0 FS -> Vk 0 (runf (repeat_ops n (pfasst_iteration P L nsw jacobi)) FS).
+  Proof.
+    induction n as [|n IH]; intros FS HV; cbn [repeat_ops fold_left]; [exact HV|].
+    rewrite runf_app. apply IH. apply (Vk_mono (L - 1) 0); [lia|]. apply pfasst_iteration_valid. exact HV.
+  Qed.
+
+  (* ---- predictors *)
+  (* restricting ONE step through levels a, a+1, ..., a+n-1 *)
+  Lemma restrict_chain_one p : forall n a FS, p < P -> (forall l, l <= a -> fst FS p l = true) ->
+    let FS' := runf (map (fun l => Restrict p l) (seq a n)) FS in
+    (forall l, l <= a + n -> fst FS' p l = true) /\ (forall q l, q <> p -> fst FS' q l = fst FS q l).
+  Proof.
+    induction n as [|n IH]; intros a [F S_] Hp Hv; cbn [seq map fold_left].
+    - split; [intros l Hl; apply Hv; lia | intros; reflexivity].
+    - cbn [fl_op]. assert (HF : forall l, l <= a -> F p l = true) by exact Hv.
+      destruct (IH (S a) (fset F p (S a) (F p a), fset S_ p (S a) false) Hp) as [I1 I2].
+      + intros l Hl. cbn [fst]. destruct (Nat.eq_dec l (S a)) as [->|Hne].
+        * rewrite fset_same. apply HF. lia.
+        * rewrite fset_other by (right; exact Hne). apply HF. lia.
+      + split.
+        * intros l Hl. apply I1. lia.
+        * intros q l Hq. rewrite (I2 q l Hq). cbn [fst]. apply fset_other. left. exact Hq.
+  Qed.
+
+  Lemma restrict_all_levels_Vk L : forall FS, Vk 0 FS ->
+    Vk (L - 1) (runf (for_steps P (fun p => map (fun l => Restrict p l) (seq 0 (L - 1)))) FS).
+  Proof.
+    intros FS HV. unfold for_steps.
+    assert (G : forall n j FS', j + n = P -> Vk 0 FS' -> (forall p l, p < j -> l <= L - 1 -> fst FS' p l = true) ->
+                forall p l, p < P -> l <= L - 1 ->
+                  fst (runf (flat_map (fun p => map (fun l => Restrict p l) (seq 0 (L - 1))) (seq j n)) FS') p l = true).
+    { induction n as [|n IH]; intros j FS' Hj HV' Hdone p l Hp Hl; cbn [seq flat_map fold_left].
+      - apply Hdone; [lia | exact Hl].
+      - rewrite runf_app.
+        destruct (restrict_chain_one j (L - 1) 0 FS' ltac:(lia) ltac:(intros l0 Hl0; apply (HV' j l0); [lia | exact Hl0])) as [R1 R2].
+        cbv zeta in R1, R2.
+        apply IH; [lia | | | exact Hp | exact Hl].
+        + intros q l0 Hq Hl0. destruct (Nat.eq_dec q j) as [->|Hne]; [apply R1; lia | rewrite (R2 q l0 Hne); apply (HV' q l0); assumption].
+        + intros q l0 Hq Hl0. destruct (Nat.eq_dec q j) as [->|Hne]; [apply R1; lia | rewrite (R2 q l0 Hne); apply Hdone; [lia | exact Hl0]]. }
+    intros p l Hp Hl. apply (G P 0 FS); [lia | exact HV | intros; lia | exact Hp | exact Hl].
+  Qed.
+
+  (* the staircase of the burn-in on level c: round q sweeps and sends steps q.., then steps q+1.. receive *)
+  Lemma staircase_round_Vk k c q : c <= k -> forall FS, Vk k FS ->
+    Vk k (runf (flat_map (fun p => [Sweep p c; Send p c]) (seq q (P - q)) ++ flat_map (fun p => [Recv p c]) (seq (S q) (P - S q))) FS).
+  Proof.
+    intros Hc FS HV. rewrite runf_app.
+    (* after the sweep/send part: still valid, and every step q <= p < P has sent *)
+    assert (A : forall n j FS', j + n = P -> Vk k FS' -> (forall p, q <= p < j -> snd FS' p c = true) ->
+                Vk k (runf (flat_map (fun p => [Sweep p c; Send p c]) (seq j n)) FS') /\
+                (forall p, q <= p < P -> snd (runf (flat_map (fun p => [Sweep p c; Send p c]) (seq j n)) FS') p c = true)).
+    { induction n as [|n IH]; intros j [F S_] Hj HV' Hs; cbn [seq flat_map fold_left app].
+      - split; [exact HV'|]. intros p Hp. apply Hs. lia.
+      - cbn [fl_op]. assert (HF : forall p l, p < P -> l <= k -> F p l = true) by exact HV'.
+        assert (HS : forall p, q <= p < j -> S_ p c = true) by exact Hs.
+        apply IH; [lia | exact HV' |].
+        intros p Hp. cbn [snd]. destruct (Nat.eq_dec p j) as [->|Hne].
+        + rewrite fset_same. apply HF; lia.
+        + rewrite fset_other by (left; exact Hne). apply HS. lia. }
+    destruct (Nat.le_gt_cases P q) as [Hq|Hq].
+    { replace (P - q) with 0 by lia. replace (P - S q) with 0 by lia. cbn [seq flat_map fold_left]. exact HV. }
+    destruct (A (P - q) q FS ltac:(lia) HV ltac:(intros; lia)) as [HV1 HS1].
+    set (FS1 := runf (flat_map (fun p => [Sweep p c; Send p c]) (seq q (P - q))) FS) in *.
+    (* the receives: each needs its predecessor valid and sent; sent flags are not changed by receives *)
+    assert (B : forall n j FS', j + n = P -> Vk k FS' -> (forall p, q <= p < P -> snd FS' p c = true) -> q < j ->
+                Vk k (runf (flat_map (fun p => [Recv p c]) (seq j n)) FS')).
+    { induction n as [|n IH]; intros j [F S_] Hj HV' Hs Hqj; cbn [seq flat_map fold_left app]; [exact HV'|].
+      assert (HF : forall p l, p < P -> l <= k -> F p l = true) by exact HV'.
+      assert (HS : forall p, q <= p < P -> S_ p c = true) by exact Hs.
+      destruct j as [|j']; [lia|]. cbn [fl_op].
+      apply IH; [lia | | exact Hs | lia].
+      intros p l Hp Hl. cbn [fst]. destruct (Nat.eq_dec p (S j')) as [->|Hne].
+      - destruct (Nat.eq_dec l c) as [->|Hne2].
+        + rewrite fset_same. rewrite (HF (S j') c Hp Hc), (HF j' c ltac:(lia) Hc), (HS j' ltac:(lia)). reflexivity.
+        + rewrite fset_other by (right; exact Hne2). apply HF; assumption.
+      - rewrite fset_other by (left; exact Hne). apply HF; assumption. }
+    destruct (Nat.le_gt_cases P (S q)) as [Hq2|Hq2].
+    { replace (P - S q) with 0 by lia. cbn [seq flat_map fold_left]. exact HV1. }
+    apply (B (P - S q) (S q) FS1); [lia | exact HV1 | exact HS1 | lia].
+  Qed.
+
+  Lemma staircase_Vk k c : c <= k -> forall n a FS, Vk k FS ->
+    Vk k (runf (flat_map (fun q => flat_map (fun p => [Sweep p c; Send p c]) (seq q (P - q))
+                                   ++ flat_map (fun p => [Recv p c]) (seq (S q) (P - S q))) (seq a n)) FS).
+  Proof.
+    intros Hc. induction n as [|n IH]; intros a FS HV; cbn [seq flat_map fold_left]; [exact HV|].
+    rewrite runf_app. apply IH. apply staircase_round_Vk; assumption.
+  Qed.
+
+  (* prolong one step from the coarsest level up, then send + recv on the fine level, for every step in order *)
+  Lemma up_and_comm_Vk L : forall FS, Vk (L - 1) FS ->
+    Vk (L - 1) (runf (for_steps P (fun p => map (fun l => Prolong p (l - 1)) (rev (seq 1 (L - 1))) ++ [Send p 0; Recv p 0])) FS).
+  Proof.
+    intros FS HV. apply (loop_steps (L - 1) 0 (fun p => map (fun l => Prolong p (l - 1)) (rev (seq 1 (L - 1))) ++ [Send p 0; Recv p 0])); [|exact HV].
+    intros j FS0 Hj HVj Hsent. rewrite runf_app.
+    (* the prolongations of step j keep everything valid and do not touch sent flags *)
+    assert (Pr : forall ls FS', (forall l, In l ls -> 1 <= l <= L - 1) -> Vk (L - 1) FS' ->
+                  Vk (L - 1) (runf (map (fun l => Prolong j (l - 1)) ls) FS') /\ snd (runf (map (fun l => Prolong j (l - 1)) ls) FS') = snd FS').
+    { induction ls as [|l ls IH]; intros [F S_] Hls HV'; cbn [map fold_left]; [split; [exact HV' | reflexivity]|].
+      cbn [fl_op]. assert (HF : forall p l', p < P -> l' <= L - 1 -> F p l' = true) by exact HV'.
+      pose proof (Hls l (or_introl eq_refl)) as Hl.
+      destruct (IH (fset F j (l - 1) (F j (l - 1) && F j (S (l - 1))), S_) ltac:(intros l' Hl'; apply Hls; right; exact Hl')) as [I1 I2].
+      - intros p l' Hp Hl'. cbn [fst]. destruct (Nat.eq_dec p j) as [->|Hne].
+        + destruct (Nat.eq_dec l' (l - 1)) as [->|Hne2].
+          * rewrite fset_same. rewrite (HF j (l - 1) Hp ltac:(lia)), (HF j (S (l - 1)) Hp ltac:(lia)). reflexivity.
+          * rewrite fset_other by (right; exact Hne2). apply HF; assumption.
+        + rewrite fset_other by (left; exact Hne). apply HF; assumption.
+      - split; [exact I1 | rewrite I2; reflexivity]. }
+    destruct (Pr (rev (seq 1 (L - 1))) FS0 ltac:(intros l Hl; apply in_rev, in_seq in Hl; lia) HVj) as [HV1 HS1].
+    destruct (runf (map (fun l => Prolong j (l - 1)) (rev (seq 1 (L - 1)))) FS0) as [F S_] eqn:E. cbn [snd] in HS1. subst S_.
+    cbn [fold_left fl_op].
+    assert (HF : forall p l', p < P -> l' <= L - 1 -> F p l' = true) by exact HV1.
+    assert (HS : forall q, q < j -> snd FS0 q 0 = true) by exact Hsent.
+    assert (Hvj : F j 0 = true) by (apply HF; [exact Hj | lia]).
+    destruct j as [|q]; cbn [fold_left fl_op fst snd].
+    - split; [exact HV1|]. intros q Hq _. assert (q = 0) by lia. subst q. rewrite fset_same. exact Hvj.
+    - split.
+      + intros p l' Hp Hl'. cbn [fst]. unfold fset at 1.
+        destruct (Nat.eqb_spec p (S q)) as [->|]; cbn [andb]; [|apply HF; assumption].
+        destruct (Nat.eqb_spec l' 0) as [->|]; [|apply HF; assumption].
+        rewrite Hvj. cbn [andb]. rewrite (HF q 0 ltac:(lia) ltac:(lia)). cbn [andb].
+        rewrite fset_other by (left; lia). apply HS. lia.
+      + intros r Hr _. cbn [snd]. destruct (Nat.eq_dec r (S q)) as [->|Hne].
+        * rewrite fset_same. exact Hvj.
+        * rewrite fset_other by (left; exact Hne). apply HS. lia.
+  Qed.
+
+  Theorem predict_ops_valid L pt FS : Vk 0 FS -> Vk 0 (runf (predict_ops P L pt) FS).
+  Proof.
+    intros HV. destruct pt; cbn [predict_ops fold_left]; [exact HV | apply sweep_all_Vk; exact HV |].
+    unfold burnin_ops. rewrite !runf_app.
+    apply (Vk_mono (L - 1) 0); [lia|].
+    apply sweep_all_Vk. apply up_and_comm_Vk. apply staircase_Vk; [lia|]. apply restrict_all_levels_Vk. exact HV.
+  Qed.
 End ScheduleValid.
